@@ -25,13 +25,16 @@ package main
 
 import (
 	"fmt"
+	"io/ioutil"
 	"runtime"
+	"runtime/debug"
 	"strings"
 	"sync"
 	"sync/atomic"
 	"time"
 
 	"github.com/bytom/bytom/event"
+	"github.com/sirupsen/logrus"
 	. "verifharness/hlib"
 )
 
@@ -629,9 +632,11 @@ func runCase(c *Ctx, ops []*mop, capacity int, kind string, nontrivial *int) boo
 	if len(strs) <= 200 {
 		desc["ops"] = strs
 	}
+	watchdog := time.NewTimer(60 * time.Second)
+	defer watchdog.Stop()
 	select {
 	case <-done:
-	case <-time.After(60 * time.Second):
+	case <-watchdog.C:
 		i := int(atomic.LoadInt32(&at))
 		c.Stats.Fail(fmt.Sprintf("class=blocked: sequential history did not finish within 60s; stuck in operation #%d %s", i, ops[i].Str), desc)
 		return false
@@ -670,7 +675,11 @@ func runCase(c *Ctx, ops []*mop, capacity int, kind string, nontrivial *int) boo
 		items[i] = m.Str
 	}
 	id := c.Cases.Add(fmt.Sprintf("run_case %d [%s]", capacity, strings.Join(items, "; ")), "["+strings.Join(summaries, "; ")+"]")
-	c.Stats.CaseIndex[fmt.Sprint(id)] = desc
+	if id < 3000 {
+		c.Stats.CaseIndex[fmt.Sprint(id)] = desc
+	} else { // replayable from (seed, index); the full history is in the cases file
+		c.Stats.CaseIndex[fmt.Sprint(id)] = map[string]interface{}{"kind": kind, "index": id, "ops": len(ops)}
+	}
 	c.Stats.Count("model_evaluated")
 	if id%997 == 3 || kind == "big" && id%3 == 0 {
 		c.Stats.Sample(desc)
@@ -854,9 +863,11 @@ func stress(c *Ctx, round int, capacity int) bool {
 	}
 	finished := make(chan struct{})
 	go func() { wg.Wait(); close(finished) }()
+	watchdog := time.NewTimer(120 * time.Second)
+	defer watchdog.Stop()
 	select {
 	case <-finished:
-	case <-time.After(120 * time.Second):
+	case <-watchdog.C:
 		names := map[int32]string{1: "Post", 2: "Subscribe", 3: "Unsubscribe", 4: "waiting for the channel to be closed", 5: "Stop"}
 		var stuck []string
 		for g := 0; g < nP+nS+1; g++ {
@@ -968,13 +979,21 @@ func runC39(c *Ctx) error {
 	probe.Stop()
 	c.Stats.Extra["channel_capacity"] = capacity
 
+	debug.SetGCPercent(800) // every Subscribe allocates a 65536-slot channel (512 KiB)
+	logrus.SetOutput(ioutil.Discard) // the dispatcher logs every dropped event and every duplicate Subscribe
+	t0 := time.Now()
+	lap := func(name string) {
+		c.Stats.Extra["seconds_"+name] = float64(int(time.Since(t0).Seconds()*100)) / 100
+		t0 = time.Now()
+	}
 	nontrivial := 0
-	nSmall := c.N(2500, 25000)
+	nSmall := c.N(1500, 15000)
 	for i := 0; i < nSmall; i++ {
 		if !runCase(c, genSmall(c.Rng, c.Stats), capacity, "small", &nontrivial) {
 			break
 		}
 	}
+	lap("small")
 	if capacity <= 300000 {
 		for i := c.N(6, 30); i > 0; i-- {
 			if !runCase(c, genBig(c.Rng, capacity), capacity, "big", &nontrivial) {
@@ -984,11 +1003,13 @@ func runC39(c *Ctx) error {
 	} else {
 		c.Stats.Count("big_cases_skipped_capacity_too_large")
 	}
+	lap("big")
 	for r := c.N(150, 1500); r > 0; r-- {
 		if !stress(c, r, capacity) {
 			break
 		}
 	}
+	lap("stress")
 	// the generator must not be degenerate
 	for _, k := range []string{"res_RGot", "res_REmpty", "res_RClosed", "res_RPostClosed", "res_RPostOk", "res_RSubDup", "res_RNil", "res_RSub"} {
 		if c.Stats.Distribution[k] < 20 {
